@@ -294,9 +294,15 @@ def run(prog):
     if tabs != ["pos_to_var", "var_to_pos"]:
         errs.append("expected one push to each table, found %s" % tabs)
 
-    def is_count(t):
+    def is_count(t, depth=2):
         t = strip(t)
-        return mir.is_call(t, "len") and show(strip(t[2][0])).endswith(("pos_to_var", "var_to_pos"))
+        if mir.is_call(t, "len") and show(strip(t[2][0])).endswith(("pos_to_var", "var_to_pos")):
+            return True
+        if depth and mir.is_call(t) and t[1].local:
+            from .base import expand
+            e = expand(t)          # an accessor (`self.num_vars()`) whose body is the table's length
+            return e is not None and is_count(e, depth - 1)
+        return False
     for cs in pushes:
         if not is_count(cs.args[1]):
             errs.append("%s is extended with %s, not with the number of variables" % (show(strip(cs.args[0]))[-10:], show(cs.args[1])[:50]))
@@ -614,11 +620,18 @@ def order_selection(prog):
                 else:
                     good = {repr(("agg", "tuple", None, None, (w[0], w[1]), ())) for w in want}
                 ok = bool(rs) and all(_same(r, good, name) for r in rs)
-                if not ok:
+                if not ok and any(("Callee(" in r or "'gamma'" in r or "'phi'" in r) for r in rs):
+                    # the result on this path is not one of the operands but a term the evaluator cannot reduce (a private
+                    # helper decides, or the function delegates to a sibling): nothing located, nothing reported
+                    errs.append("?for levels (a: %s, b: %s) the result is %s, which is not evaluated here" % (
+                        "none" if la is None else la, "none" if lb is None else lb, sorted(x[:40] for x in rs)))
+                elif not ok:
                     errs.append("for levels (a: %s, b: %s) it returns %s" % ("none" if la is None else la, "none" if lb is None else lb,
                                                                              sorted(x[:60] for x in rs)))
+        errs.sort(key=lambda e: e.startswith("?"))      # a definite mismatch first
         out.append(inst("VO", "%s:by-level" % fn.npath, VIOLATION if errs else OK, fn, None,
-                        ("%s; the operand whose top variable has the smaller level must come first (constants last)" % errs[0])
+                        (errs[0] if errs[0].startswith("?") else
+                         "%s; the operand whose top variable has the smaller level must come first (constants last)" % errs[0])
                         if errs else "%d level combinations: earlier level first, constants last" % n))
     fe = prog.find1(name="first_essential", self_adt=VO, unit="rsdd-lib")
     r = strip(fe.terms.ret)
